@@ -236,6 +236,8 @@ def run_encoder(prop, case, enc, emit, col, rk, rk_dv, rnd, cap):
         emit.ctx = {}
     if enc == 'FAST':
         emit.ctx['linked_forced_is_first'] = common.linked_forced_is_first(gp)
+    if 'con_unordered_norepl' in emit.flags:
+        emit.ctx['norepl_unreduced_all_permanent'] = common.norepl_unreduced_all_permanent(b.dsg)
     dvobs = O.des_vars(gp, b)
     vectors, exhaustive = D.declared_space(gp, cap, rnd)
     sel_key_of = {v: k for k, v in b.sel.items()}
